@@ -376,6 +376,9 @@ impl<const KK: usize> Probe<KK> {
                     log::log(K::Effect { msg: which, actor, step: i, what: "subscribe", arg: *t as u64, ok });
                 }
                 SStep::CtxStop => {
+                    // (the request is a cross-thread event: on real threads its log entry may be delayed, so a marker is
+                    // logged before the call as well; oracles take [marker, entry] as the request's interval)
+                    log::log(K::Effect { msg: which, actor, step: i, what: "ctx_stop.begin", arg: 0, ok: true });
                     let ok = ctx.stop().is_ok();
                     log::log(K::Effect { msg: which, actor, step: i, what: "ctx_stop", arg: 0, ok });
                 }
@@ -396,10 +399,12 @@ impl<const KK: usize> Probe<KK> {
                     log::log(K::Effect { msg, actor, step: i, what: "after_sleep", arg: d, ok: true });
                 }
                 Step::CtxStop => {
+                    log::log(K::Effect { msg, actor, step: i, what: "ctx_stop.begin", arg: 0, ok: true });
                     let ok = ctx.stop().is_ok();
                     log::log(K::Effect { msg, actor, step: i, what: name, arg: 0, ok });
                 }
                 Step::CtxRestart => {
+                    log::log(K::Effect { msg, actor, step: i, what: "ctx_restart.begin", arg: 0, ok: true });
                     let ok = ctx.restart().is_ok();
                     log::log(K::Effect { msg, actor, step: i, what: name, arg: 0, ok });
                 }
